@@ -59,6 +59,8 @@ SPEC = [
         "fields": ["threshold", "branching_factor", "_merge_accept_fn"],
         "partial_init": True}),
     ("bblean/cli.py", {"functions": ["_validate_output_dir"]}),
+    # publication of a result file: written under a temporary name, then renamed
+    ("bblean/multiround.py", {"functions": ["_pickle_dump_atomic"]}),
     # the body of the `while True:` loop of the monitor daemon, as a function of the running maximum: its file effects and
     # the new maximum (`total_rss()`, a closure over psutil, is an input)
     ("bblean/_memory.py", {"loop_bodies": [("monitor_rss_process", ["max_rss_gib", "file", "start_time", "interval_s"], ["max_rss_gib"])]}),
@@ -192,6 +194,9 @@ class Translator:
             if isinstance(e.op, ast.Not):
                 return f"(PV.not {self.expr(e.operand, cx)})"
             raise Unsupported(f"unary operator {src_of(e)} (line {e.lineno})")
+        if isinstance(e, ast.BinOp) and isinstance(e.op, ast.Add) and isinstance(e.right, ast.Constant) \
+                and isinstance(e.right.value, str):
+            return f"(PV.strCat {self.expr(e.left, cx)} {self.expr(e.right, cx)})"
         if isinstance(e, ast.BinOp) and isinstance(e.op, ast.Div) and isinstance(e.right, ast.Constant) \
                 and isinstance(e.right.value, str):
             return f"(PV.pathJoin {self.expr(e.left, cx)} {self.expr(e.right, cx)})"
@@ -383,6 +388,12 @@ class Translator:
             sname = ident(f.id + "_call")
             cx["symbols"].add(sname)
             return sname
+        # <path>.with_name(e) on an opaque path parameter: the sibling of that name
+        if isinstance(f, ast.Attribute) and f.attr == "with_name" and isinstance(f.value, ast.Name) and f.value.id in cx["opaque"] \
+                and len(e.args) == 1 and not e.keywords:
+            sname = ident(f.value.id + "_parent")
+            cx["symbols"].add(sname)
+            return f"(PV.pathJoin {sname} {self.expr(e.args[0], cx)})"
         # self.<field>.index(x): position of the first equal element (ValueError if there is none)
         if isinstance(f, ast.Attribute) and f.attr == "index" and flat(f.value) and flat(f.value).startswith("self.") \
                 and f.value.attr in cx["selfattrs"] and len(e.args) == 1 and not e.keywords:
@@ -492,6 +503,11 @@ class Translator:
                 if c_.func.attr == "flush" and not c_.args:
                     cx2 = dict(cx, locals=cx["locals"] | {"eff_"})
                     return pad + f'let eff_ := eff_ ++ [PV.str "flush", {path}]\n' + self.stmts(rest, cx2, kind, end, ind)
+            if flat(c_.func) == "pickle.dump" and len(c_.args) == 2 and not c_.keywords and isinstance(c_.args[1], ast.Name) \
+                    and c_.args[1].id in hs and isinstance(c_.args[0], ast.Name):
+                cx2 = dict(cx, locals=cx["locals"] | {"eff_"})
+                return pad + f'let eff_ := eff_ ++ [PV.str "pickle.dump", {hs[c_.args[1].id]}, PV.str "{c_.args[0].id}"]\n' \
+                    + self.stmts(rest, cx2, kind, end, ind)
             if flat(c_.func) == "os.fsync" and len(c_.args) == 1 and isinstance(c_.args[0], ast.Call) \
                     and isinstance(c_.args[0].func, ast.Attribute) and c_.args[0].func.attr == "fileno" \
                     and isinstance(c_.args[0].func.value, ast.Name) and c_.args[0].func.value.id in hs:
